@@ -103,3 +103,53 @@ Theorem C09_dm_kraus_outer : forall K (O : Ops K), Laws O -> forall ks dims ax s
   = vsum O (map (fun _ => k0 O) (concat (outer O psi))) (map (fun k => concat (outer O (apply_tab O k dims ax sh psi))) ks).
 Proof. exact @dm_kraus_outer. Qed.
 Print Assumptions C09_dm_kraus_outer.
+
+(* ---- Choi description (Gates/Choi.v): Cirq's sum_k vec(K) vec(K)^dagger is the Choi matrix of the definition
+   J = sum_ij E(|i><j|) (x) |i><j|, is the reshuffled superoperator (and back), is Hermitian, and acts on operators as the
+   Kraus operators do; for a channel with two generic single-qubit Kraus operators (eight free ring elements) ---- *)
+From VF Require Import Gates.Choi Gates.ChoiProofs.
+Theorem C09_choi_is_definition : forall K (O : Ops K), Laws O -> forall a b c d a' b' c' d',
+  kraus_choi O 4 [[[a; b]; [c; d]]; [[a'; b']; [c'; d']]] = choi_def O 2 [[[a; b]; [c; d]]; [[a'; b']; [c'; d']]].
+Proof. exact @choi_is_definition. Qed.
+Print Assumptions C09_choi_is_definition.
+Theorem C09_choi_reshuffles_superop : forall K (O : Ops K), Laws O -> forall a b c d a' b' c' d',
+  kraus_choi O 4 [[[a; b]; [c; d]]; [[a'; b']; [c'; d']]] = reshuffle O 2 (kraus_superop O 4 [[[a; b]; [c; d]]; [[a'; b']; [c'; d']]]).
+Proof. exact @choi_reshuffles_superop. Qed.
+Print Assumptions C09_choi_reshuffles_superop.
+Theorem C09_superop_reshuffles_choi : forall K (O : Ops K), Laws O -> forall a b c d a' b' c' d',
+  kraus_superop O 4 [[[a; b]; [c; d]]; [[a'; b']; [c'; d']]] = reshuffle O 2 (kraus_choi O 4 [[[a; b]; [c; d]]; [[a'; b']; [c'; d']]]).
+Proof. exact @superop_reshuffles_choi. Qed.
+Print Assumptions C09_superop_reshuffles_choi.
+Theorem C09_choi_hermitian : forall K (O : Ops K), Laws O -> forall a b c d a' b' c' d',
+  mdagger O (kraus_choi O 4 [[[a; b]; [c; d]]; [[a'; b']; [c'; d']]]) = kraus_choi O 4 [[[a; b]; [c; d]]; [[a'; b']; [c'; d']]].
+Proof. exact @choi_hermitian. Qed.
+Print Assumptions C09_choi_hermitian.
+Theorem C09_choi_acts_as_kraus : forall K (O : Ops K), Laws O -> forall a b c d a' b' c' d' r00 r01 r10 r11,
+  choi_apply O 2 (kraus_choi O 4 [[[a; b]; [c; d]]; [[a'; b']; [c'; d']]]) [[r00; r01]; [r10; r11]]
+  = kraus_apply O [[[a; b]; [c; d]]; [[a'; b']; [c'; d']]] [[r00; r01]; [r10; r11]].
+Proof. exact @choi_acts_as_kraus. Qed.
+Print Assumptions C09_choi_acts_as_kraus.
+(* the entrywise conjugate (= transpose) of a Choi matrix is in general the Choi matrix of another channel (witness: S) *)
+Theorem C09_choi_conj_differs : exists k : list (list K8),
+  mconj K8Ops (kraus_choi K8Ops 4 [k]) <> kraus_choi K8Ops 4 [k].
+Proof. exact choi_conj_differs. Qed.
+Print Assumptions C09_choi_conj_differs.
+
+(* ---- noise models defined on the whole moment sequence (Sim/NoiseSeq.v): the circuit such a model produces keeps every
+   moment and follows the moment at position i by the noise moment of level i; presenting the moments one at a time is a
+   different circuit as soon as there are two moments and a system qubit ---- *)
+From VF Require Import Sim.NoiseSeq Sim.NoiseSeqProofs.
+Theorem C09_seq_noisy_length : forall system c, (length (seq_noisy_moments system c) = 2 * length c)%nat.
+Proof. exact seq_noisy_length. Qed.
+Print Assumptions C09_seq_noisy_length.
+Theorem C09_seq_noisy_nth : forall system c i d, (i < length c)%nat ->
+  nth (2 * i)%nat (seq_noisy_moments system c) d = nth i c d /\
+  nth (2 * i + 1)%nat (seq_noisy_moments system c) d = noise_at i system.
+Proof. exact seq_noisy_nth. Qed.
+Print Assumptions C09_seq_noisy_nth.
+Theorem C09_seq_per_moment_differs : forall system c q, In q system -> (2 <= length c)%nat ->
+  seq_noisy_per_moment system c <> seq_noisy_moments system c.
+Proof. exact seq_per_moment_differs. Qed.
+Print Assumptions C09_seq_per_moment_differs.
+Example C09_seq_per_moment_hyps : exists (system : list nat) (c : list nmoment) (q : nat), In q system /\ (2 <= length c)%nat.
+Proof. exists [0%nat], [[]; []], 0%nat. split; simpl; auto. Qed.
